@@ -5,13 +5,12 @@ import (
 	"context"
 	"encoding/json"
 	"fmt"
-	"os"
-	"path/filepath"
 	"reflect"
 	"sort"
 
 	"github.com/grafana/cog/internal/ast"
 	"github.com/grafana/cog/internal/languages"
+	cogyaml "github.com/grafana/cog/internal/yaml"
 )
 
 // snapshot: a deep copy of any Go value into a neutral tree (map[string]any / []any / scalars),
@@ -218,6 +217,34 @@ func doMutate(job mutateJob) (res mutateResult) {
 		_, _ = ls[name].CompilerPasses().Process(shared)
 		check("Passes.Process", name)
 	}
+	// (a') the user-configured chain (transformations.schemas) applied once more to the shared schemas
+	if common, err := cogyaml.NewCompilerLoader().PassesFrom(p.Transforms.CommonPassesFiles); err == nil && len(common) > 0 {
+		_, _ = common.Process(shared)
+		check("Passes.Process", "configured-chain")
+		// ... and to the consolidated schemas it was written for (what LoadSchemas hands it)
+		var raw ast.Schemas
+		ok := true
+		for _, input := range p.Inputs {
+			ss, err := input.LoadSchemas(ctx)
+			if err != nil {
+				ok = false
+				break
+			}
+			raw = append(raw, ss...)
+		}
+		if ok {
+			if raw, err = raw.Consolidate(); err == nil {
+				before := snapOf(raw)
+				_, _ = common.Process(raw)
+				after := snapOf(raw)
+				if !reflect.DeepEqual(before, after) {
+					var paths []string
+					diffPaths(before, after, "", &paths, 8)
+					res.Mutations = append(res.Mutations, stageDiff{Stage: "Passes.Process", Lang: "configured-chain-on-consolidated-inputs", Paths: paths})
+				}
+			}
+		}
+	}
 	// (b) contexts: alone, on a copy taken before any chain ran ...
 	for _, name := range names {
 		fresh := pristine[name]
@@ -250,19 +277,12 @@ func doMutate(job mutateJob) (res mutateResult) {
 
 func init() {
 	commands["mutate"] = func(in *bufio.Scanner, out *bufio.Writer) error {
-		for in.Scan() {
+		return jobLoop(in, out, func(line []byte) (any, error) {
 			var job mutateJob
-			if err := json.Unmarshal(in.Bytes(), &job); err != nil {
-				return err
+			if err := json.Unmarshal(line, &job); err != nil {
+				return nil, err
 			}
-			if err := os.Chdir(filepath.Dir(job.Config)); err != nil {
-				return err
-			}
-			b, _ := json.Marshal(doMutate(job))
-			out.Write(b)
-			out.WriteByte('\n')
-			out.Flush()
-		}
-		return nil
+			return doMutate(job), nil
+		})
 	}
 }
